@@ -1362,6 +1362,43 @@ func nmNameTable(c *Ctx) {
 		es := []nmEntry{{3, "en-US", 1 + i%5, s}, {3, "de-DE", 300, s + "x"}, {3, "en-US", 26, "x" + s}}
 		nmNameCase(c, es, []int{1, 1, 10}[i%3], "boundary-windows")
 	}
+	// a Macintosh string and a Windows string that occupy the SAME storage bytes (Encode shares storage
+	// by content): the Mac Roman bytes of the one are the UTF-16BE bytes of the other
+	for i := 0; i < 24+c.N/100; i++ {
+		var macStr string
+		if i == 0 {
+			macStr = "Test"
+		} else {
+			macStr = nmRandString(r, 0, 8)
+		}
+		mb := mac.Encode(macStr)
+		if len(mb)%2 == 1 {
+			mb = append(mb, 'x')
+		}
+		ok := true
+		var wr []rune
+		for j := 0; j+1 < len(mb); j += 2 {
+			u := rune(mb[j])<<8 | rune(mb[j+1])
+			if u >= 0xD800 && u <= 0xDFFF {
+				ok = false
+			}
+			wr = append(wr, u)
+		}
+		if !ok || len(mb) == 0 {
+			continue
+		}
+		macStr = mac.Decode(mb)
+		winStr := string(wr)
+		idW := 1
+		if i%2 == 1 {
+			idW = 4 // different name ids
+		}
+		es := []nmEntry{{1, "en", 1, macStr}, {3, "en-US", idW, winStr}}
+		if i%3 == 2 { // both orders of first use, more records sharing the bytes
+			es = append(es, nmEntry{3, "de-DE", 1, winStr}, nmEntry{1, "fr", 2, macStr})
+		}
+		nmNameCase(c, es, []int{1, 10}[i%2], "mac-and-windows-share-storage-bytes")
+	}
 	for i, s := range nmBoundaryStrings(nmMacSpecials, []rune("Ab\u00e9\u2260")) {
 		es := []nmEntry{{1, "en", 1 + i%5, s}, {1, "fr", 2, "x" + s}, {3, "en-US", 1, s}}
 		nmNameCase(c, es, 1, "boundary-mac")
